@@ -28,6 +28,9 @@ def extra_networks(n0, k1, k2):
         spec('S4_delayed_reactant', [A, B, C], {A: n0, B: 0, C: 1},
              [dict(ma([A], [B], k1), delay=dict(type='fixed', delay=0.3, reactants=[C], products=[])), ma([B], [A, C], k2)]),
         spec('S5_const_consumer', [A], {A: n0}, [gen([A], [], ('num', 2.0))]),
+        # consumed at the firing time and given back by the delayed part (gene busy during transcription), non-mass-action rate
+        spec('S6_returned_reactant', [A, B, C], {A: n0, B: 0, C: 3},
+             [dict(hill('hillpositive', [A], [], k1, 2.0, 1.0, C), delay=dict(type='fixed', delay=0.6, reactants=[], products=[A, B])), ma([B], [], k2)]),
     ]
 
 
@@ -96,6 +99,13 @@ def invariants(sp, cfg, rows, consumed, massaction_only, pending_cols=None):
         for r in rows:
             if min(r) < 0:
                 return 'negative', 'negative count in row %s (%s)' % (r, 'safe mode' if cfg['safe'] else 'mass action')
+    elif cfg['safe'] and cfg['sim'] == 'delay':
+        # with the delay simulator a species that is only consumed at firing times (never by a delayed part) cannot go negative in safe mode
+        for i in range(ns):
+            if all(Sd[i][j] >= 0 for j in range(nr)):
+                for r in rows:
+                    if r[i] < 0:
+                        return 'negative', 'negative count of %s in row %s (safe mode, species never consumed by a delayed part)' % (sp['species'][i], r)
     for a, b in zip(rows, rows[1:]):
         d = [int(y - x) for x, y in zip(a, b)]
         if not in_cone(d, cols, consumed):
@@ -182,7 +192,7 @@ def run_config(c, cfg):
         if len(c.samples) < 1 and len(ref['us']) > 3:
             c.sample(dict(network=sp['name'], sim=sim, safe=cfg['safe'], us=ref['us'], rows=got['rows']))
     EXP.explore(factory, cfg['bound'], on_trace)
-    if cfg['safe'] and sim != 'delay':
+    if cfg['safe']:
         # the safe interface's requirement table, state by state (hook H3): an under-supplied reaction has propensity 0
         from ..modelspec import state_vector
         S, Sd = crn.stoich(sp)
